@@ -19,7 +19,10 @@ pub struct ConcCase {
 }
 
 pub fn run_cc(c: &ConcCase, drain_ms: u64) -> RunResult {
-  let cfg = arx_rt::Config { schedule: c.sched.to_schedule(), max_steps: 60_000, fuel: 100_000 };
+  // (fixed budgets for the ordinary small cases, growing with the size of the long ones)
+  let size = super::seq_inv::case_size(&c.case) + c.threads.iter().map(|t| t.len() as u64).sum::<u64>();
+  let (max_steps, fuel) = if size <= 40 { (60_000, 100_000) } else { (60_000 + 4_000 * size, 100_000 + 4_000 * size as i64) };
+  let cfg = arx_rt::Config { schedule: c.sched.to_schedule(), max_steps, fuel };
   let opts = RunOpts { settle: true, final_wait_ms: 10_000, drain_ms, sentinel: false };
   run_conc(&c.case, &c.threads, cfg, opts)
 }
@@ -773,7 +776,9 @@ pub fn c09_strategy(_ctx: &Ctx, for_c05: bool) -> BoxedStrategy<C09Case> {
   // the subscriber unsubscribes from inside its n-th callback - on the scheduler's own thread
   // when the pipeline ends in observe_on (the worker then aborts its own scheduler)
   let self_unsub = prop::option::weighted(0.15, 0usize..3);
-  (pre, sched_ops, post, 0usize..=6, 0u8..=2, any::<bool>(), prop::option::weighted(if for_c05 { 0.97 } else { 0.35 }, 0u8..=3), sched_strategy(), reentrant, self_unsub)
+  // (now and then a source long enough to fill whatever a scheduler may want to bound)
+  let len = prop_oneof![10 => 0usize..=6, 1 => 34usize..=70];
+  (pre, sched_ops, post, len, 0u8..=2, any::<bool>(), prop::option::weighted(if for_c05 { 0.97 } else { 0.35 }, 0u8..=3), sched_strategy(), reentrant, self_unsub)
     .prop_map(move |(pre, mid, post, len, ending, hot, unsub, sched, reentrant, self_unsub)| {
       let subscribe_on = mid.contains(&Op::SubscribeOnNew);
       let reentrant = if hot && !subscribe_on && !for_c05 { reentrant } else { None };
@@ -1138,7 +1143,7 @@ pub fn properties() -> Vec<Property> {
   vec![
     Property {
       id: "C09",
-      rule: "cases = script of 0..6 unique items + ending, played synchronously by a cold source or by an emitter thread into a hot source, through [0..2 ops] observe_on|subscribe_on (also stacked twice) [0..2 ops] on new-thread schedulers, optional unsubscribing thread, generated schedule (sparse overrides or dense random walk); oracle = received equals the reference trace of the pipeline without scheduler operators (prefix if unsubscribed), one scheduler thread, no overlapping callbacks, subscribe_on subscribes on the worker, nothing for emissions started after unsubscribe returned; non-trivial = >= 2 events and >= 4 thread switches in the schedule",
+      rule: "cases = script of 0..6 (one case in eleven: 34..70) unique items + ending, played synchronously by a cold source or by an emitter thread into a hot source, through [0..2 ops] observe_on|subscribe_on (also stacked twice) [0..2 ops] on new-thread schedulers, optional unsubscribing thread, generated schedule (sparse overrides or dense random walk); oracle = received equals the reference trace of the pipeline without scheduler operators (prefix if unsubscribed), one scheduler thread, no overlapping callbacks, subscribe_on subscribes on the worker, nothing for emissions started after unsubscribe returned; non-trivial = >= 2 events and >= 4 thread switches in the schedule",
       assumptions: vec!["schedules are explored by generation (sparse preemption-bounded + random walk), not exhaustively"],
       subs: vec![mk_sub("sched", (600, 12_000), |ctx| c09_strategy(ctx, false), c09_check)],
     },
